@@ -56,7 +56,7 @@ def snapshot(objs):
     return snap
 
 
-def compare_snapshots(ctx, before, after, label, identity=True, values=True, graph=True):
+def compare_snapshots(ctx, before, after, label, identity=True, values=True, graph=True, skip_attrs=()):
     """Obligations: `after` is observably the same model as `before`."""
     ok = True
     for name in before:
@@ -68,7 +68,7 @@ def compare_snapshots(ctx, before, after, label, identity=True, values=True, gra
                          f"{sorted(set(a) ^ set(b))}") and ok
         for attr, rb in b.items():
             ra = a.get(attr)
-            if ra is None:
+            if ra is None or attr in skip_attrs:
                 continue
             w = f"{label}: {name}.{attr}"
             if rb["kind"] != ra["kind"]:
